@@ -22,8 +22,10 @@ Inductive strategy : Type := Newer | Larger | Smaller | PreferSource | PreferDes
 Inductive act : Type := CopyToSource | CopyToDest | DeleteFromSource | DeleteFromDest | RenameConflict.
 
 (* classifier.rs: is_modified, content_equal *)
+(* a time stamp that moved backwards by more than a second counts as a modification too (`fix: bisync notices a file whose time stamp
+   moved backwards`); times are in seconds here *)
 Definition is_modified (e : fent) (r : srec) : bool :=
-  negb (N.eqb (f_size e) (s_size r)) || Z.ltb (s_mtime r) (f_mtime e).
+  negb (N.eqb (f_size e) (s_size r)) || Z.ltb (s_mtime r) (f_mtime e) || Z.ltb (f_mtime e + 1) (s_mtime r).
 Definition content_equal (s d : fent) : bool := N.eqb (f_size s) (f_size d) && N.eqb (f_content s) (f_content d).
 
 (* classify_single_path: the arms in source order, then the catch-all *)
